@@ -84,6 +84,7 @@ type Obligation struct {
 	Cases   []Term
 	RawQuery string
 	Model   map[string]string
+	Static  bool // decided by a scan of the SSA, not by a solver
 }
 
 type inputVar struct {
@@ -113,6 +114,7 @@ type VC struct {
 	strlits  map[string]Term
 	bits     map[Term]*big.Int
 	refKeys  map[string]bool
+	immKeys  map[string]bool // heap keys of `immutable` fields: a havoc keeps them on already-allocated objects
 	keyInt   map[string]types.Type
 	cutsHit  map[string]bool
 	guardDefs map[Term][]Term
@@ -550,6 +552,39 @@ func refLike(t types.Type) bool {
 
 // havocKeys forgets the content of every heap key in wk (all keys when wk.all).
 func (vc *VC) havocKeys(st *State, wk *writeSet) {
+	// immutable fields: remember the current content; after the havoc the new heap agrees with it below the old allocation mark
+	type immOld struct {
+		k   string
+		old Term
+	}
+	var imm []immOld
+	if len(vc.immKeys) > 0 {
+		var iks []string
+		for k := range vc.immKeys {
+			if wk.all || wk.keys[k] {
+				iks = append(iks, k)
+			}
+		}
+		sort.Strings(iks)
+		for _, k := range iks {
+			imm = append(imm, immOld{k, vc.heapGet(st, k, vc.keys[k].sort)})
+		}
+	}
+	oldAlloc := st.alloc
+	defer func() {
+		for _, io := range imm {
+			ki := vc.keys[io.k]
+			if !strings.HasPrefix(ki.sort, "(Array Int ") {
+				continue
+			}
+			newA := vc.fresh("imm_"+ki.name, ki.sort)
+			vc.emit(fmt.Sprintf("(assert (forall ((x Int)) (! (=> (< x %s) (= (select %s x) (select %s x))) :pattern ((select %s x)))))", oldAlloc, newA, io.old, newA))
+			if vc.refKeys[io.k] && ki.sort == "(Array Int Int)" {
+				vc.emit(fmt.Sprintf("(assert (forall ((x Int)) (! (< (select %s x) %s) :pattern ((select %s x)))))", newA, st.alloc, newA))
+			}
+			st.heap[io.k] = newA
+		}
+	}()
 	if wk.all || len(wk.keys) > 0 || wk.allocs {
 		na := vc.fresh("alloc", "Int")
 		vc.emit(fmt.Sprintf("(assert (>= %s %s))", na, st.alloc))
